@@ -31,6 +31,10 @@ theorem verdict : (classify Generated.factsC07).Sound (Holds (cfgOf Generated.fa
 #print axioms witness_value_insert_wrong_comparator
 #print axioms witness_value_mixed_types
 #print axioms shift_correct
+#print axioms witness_window_bound_wraps
+#print axioms Hv.Beacon.effWindow_spec
+#print axioms Hv.Beacon.rangeInv_run
+#print axioms correct_of_listOk
 #print axioms value_single_type
 #print axioms holds_current_single_type
 #print axioms shift_partial
